@@ -62,6 +62,8 @@ const char *Monitor::ctx_tag(int fsm) const { return fsm == FSM_EV ? "C13" : las
 
 void Monitor::on_read(bool ok, unsigned char byte)
 {
+        if (stray && ok)
+                classify_stray();
         if (dead())
                 return;
         if (!ok) {
@@ -231,6 +233,7 @@ static bytes strip_cr_before_lf(const bytes &s);
 
 void Monitor::on_handler(int cmd, int kind, int fsm, const bytes &data, size_t size, size_t extra)
 {
+        matched_step = -2;
         if (dead())
                 return;
         st.handler_calls++;
@@ -279,6 +282,7 @@ void Monitor::on_handler(int cmd, int kind, int fsm, const bytes &data, size_t s
                          " extra=" + std::to_string(kind == K_WRITE ? it.args_num : it.maxsize));
                 return;
         }
+        matched_step = it.step;
         if (fsm == FSM_EV)
                 consume_ev_item();
         else
@@ -390,11 +394,10 @@ void Monitor::on_write(unsigned char byte, bool accepted)
                 return;
         }
         if (stray) {
+                // keep collecting until new stimulus arrives (next successful read / accepted trigger), the
+                // run ends, or enough has been seen: a second result code may follow other stray units
                 cur_unit += (char)byte;
-                bool payload = false;
-                for (char ch : cur_unit)
-                        payload |= ch != '\n' && ch != '\r';
-                if ((payload && byte == '\n') || cur_unit.size() > 80)
+                if (cur_unit.size() > 600)
                         classify_stray();
                 return;
         }
@@ -463,6 +466,13 @@ void Monitor::on_write(unsigned char byte, bool accepted)
                         rule = "unit-broken-by-newline";
                 } else if (it.is_result) {
                         rule = "wrong-result-code";
+                        // the other well-formed result code is only a wrong verdict; anything else means the line did
+                        // not get exactly one proper result code (C01 as well)
+                        bool other_code = false;
+                        for (const char *alt : {"\nOK\n", "\nERROR\n", "\r\nOK\r\n", "\r\nERROR\r\n"})
+                                other_code |= std::string(alt).compare(0, cur_unit.size(), cur_unit) == 0;
+                        if (!other_code && tag.find("C01") == std::string::npos)
+                                tag += ",C01";
                 }
                 fail(tag, rule, "emitted so far \"" + vis(cur_unit) + "\" while expecting " + head_desc(q) + (prev.size() > 1 || evq.empty() || cmdq.empty() ? "" : " (other producer expects " + head_desc(prev[0].prod == 0 ? evq : cmdq) + ")"));
                 return;
@@ -516,13 +526,22 @@ void Monitor::classify_stray()
         if (!stray)
                 return;
         stray = false;
+        // split what was collected into newline-delimited pieces; is one of them a result code?
+        bool has_result = false;
+        bytes piece;
+        for (char ch : cur_unit + "\n") {
+                if (ch == '\n' || ch == '\r') {
+                        if (piece == "OK" || piece == "ERROR")
+                                has_result = true;
+                        piece.clear();
+                } else
+                        piece += ch;
+        }
         bytes pl;
         for (char ch : cur_unit)
                 if (ch != '\n' && ch != '\r')
                         pl += ch;
-        bool part = cur_unit.find("line") != bytes::npos;
-        (void)part;
-        if (pl == "OK" || pl == "ERROR" || std::string("ERROR").compare(0, pl.size(), pl) == 0 || std::string("OK").compare(0, pl.size(), pl) == 0)
+        if (has_result || (!pl.empty() && (std::string("ERROR").compare(0, pl.size(), pl) == 0 || std::string("OK").compare(0, pl.size(), pl) == 0)))
                 fail("C01", "result-code-without-pending-line", "\"" + vis(cur_unit) + "\" emitted although no complete, unanswered command line is pending" +
                                                                       (partial_line() ? " (partial line so far: \"" + vis(cur_line) + "\")" : ""));
         else if (accepted > 0)
@@ -577,6 +596,8 @@ void Monitor::on_service_end(int status)
 
 void Monitor::on_trigger(int cmd, int type, int status, int full_before)
 {
+        if (stray && status == ST_OK)
+                classify_stray();
         if (dead())
                 return;
         if (status == ST_MUTEX_LOCK)
@@ -683,8 +704,18 @@ void Monitor::on_hexit(int status_arg, int result)
 
 void Monitor::on_busy(int r)
 {
-        if (dead())
+        // still evaluated while a stray unit is being collected: "OK with a line partially received" does not
+        // depend on the output side
+        if (viol.set() || desync || off)
                 return;
+        if (stray) {
+                if (r == ST_OK && partial_line()) {
+                        stray = false;
+                        fail("C18", "busy-ok-while-work-in-flight", "cat_is_busy returned OK but a command line is partially received (\"" + vis(cur_line) +
+                                                                         "\"; its answer \"" + vis(cur_unit) + "\" was emitted before the line was complete)");
+                }
+                return;
+        }
         if (r != ST_OK && r != ST_BUSY)
                 return;
         st.busy_samples++;
